@@ -11,6 +11,7 @@ _reg('recip', ['R1', 'R2'])
 _reg('api', ['H1', 'D2', 'I7'])
 _reg('life', ['H6', 'H7', 'H3'])
 _reg('sshash', ['S4', 'D1', 'S1'])
+_reg('vmloop', ['I8'])
 
 PROPS = {
  'C11': dict(level='other', lemmas=['B1', 'B2', 'B3', 'B4', 'B5'],
@@ -23,7 +24,7 @@ PROPS = {
  'C12': dict(level='other', lemmas=['A1', 'A2', 'A3', 'A5'],
    files=['src/aes_hash.cpp', 'src/aes_hash.hpp', 'src/soft_aes.cpp', 'src/soft_aes.h', 'src/intrin_portable.h', 'src/virtual_machine.cpp', 'src/asm/program_loop_store_hard_aes.inc', 'src/asm/program_loop_store_soft_aes.inc', 'doc/specs.md'],
    explanation='TODO', trusted=['FIPS-197 transcription in spec/aes_ref.py (self-tested on the FIPS-197 appendix B vector)', 'Intel SDM: AESENC/AESDEC == FIPS-197 round / inverse round'], outside=[]),
- 'C05': dict(level='other', lemmas=['I1', 'I7'],
+ 'C05': dict(level='other', lemmas=['I1', 'I7', 'I8'],
    files=['src/bytecode_machine.cpp', 'src/bytecode_machine.hpp', 'src/instruction.hpp', 'src/virtual_machine.cpp', 'src/vm_interpreted.cpp', 'src/intrin_portable.h', 'src/instructions_portable.cpp', 'src/common.hpp', 'src/configuration.h', 'doc/specs.md'],
    explanation='TODO', trusted=['doc/specs.md chapter 4-5 transcription in spec/vm_ref.py'], outside=[]),
  'C04': dict(level='translation_validation', lemmas=['J1', 'I1'],
